@@ -143,6 +143,7 @@ func (d *Data) MergeLabels(v dvid.VersionID, op labels.MergeOp, info dvid.ModInf
 		return
 	}
 
+	dvid.VerifYield("labelmap.MergeLabels")
 	// Write the final merged index and also record surface_mutid since surface changed.
 	if err = targetIdx.Add(mergeIdx, mutInfo); err != nil {
 		return
